@@ -220,3 +220,30 @@ def print_mode(nodefault: bool, std: bool) -> Tuple[int, int, int, int]:
     logs = len([x for x in p.printers if isinstance(x, LogPrinter)])
     caps = len([x for x in p.printers if isinstance(x, CapPrinter)])
     return (std, caps, len(cap.lines), logs)
+
+
+# ------------------------------------------------------------------ O4 return-mode no-matches is the complement, also over advanced-over lines
+ADV = '$SYM[*][ @a.nocontrib == line_number() -> advance(@n)  gt(line_number(), @k) ]'
+
+
+@ob(
+    "C15",
+    "O4-no-matches-complement",
+    pre=["{KLO} <= k <= {KHI} and {KLO} <= a <= {KHI}"],
+    post="sorted(_[0] + _[1]) == [0, 1, 2, 3, 4, 5]",
+    bound="6 stub records (no blanks); a csvpath that advances n lines (1..3, per shard) from a symbolic line a and matches lines above a "
+    "symbolic threshold k, run once in the default return mode and once with return-mode: no-matches: every scanned line is returned "
+    "by exactly one of the two runs (lines advanced over are not matches)",
+    outside="skip(); blank records (O2)",
+    encodes=["csvpath/csvpath.py:CsvPath._consider_line (advance branch, collect_when_not_matched)", "csvpath/matching/functions/lines/advance.py", "csvpath/modes/return_mode.py"],
+    tiers={"quick": {"timeout": 900, "K": {"KLO": -1, "KHI": 6}, "shards": product(n=[1, 2, 3])}},
+)
+def no_matches_complement(k: int, a: int, n: int) -> Tuple[List[int], List[int]]:
+    out = []
+    for comment in ("", COMMENT["no-matches"]):
+        p, pr = fresh(comment + ADV, recs_of(False, False, False))
+        p.variables["k"] = k
+        p.variables["a"] = a
+        p.variables["n"] = n
+        out.append([int(l[0]) for l in p.collect()])
+    return (out[0], out[1])
